@@ -1,5 +1,43 @@
+import SamVerif.Model.Differ
 import Driver.Util
-/-! Line-protocol driver for property C16 (model side). Not implemented yet. -/
+/-! Protocol `diff` (C16): `diff <old> <new>` on comma-separated integer lists (`-` = empty) through
+`SamVerif.Differ.diff`; answers in the format of `harness/src/bin/c16.rs`. Other (server) lines of
+the C16 protocol are implementation-only and never sent to this driver. -/
+namespace Driver.C16
+open SamVerif.Differ Driver
+
+def parseList (s : String) : List Int :=
+  if s == "-" then [] else (s.splitOn ",").map String.toInt!
+
+def joinInts (xs : List Int) : String := ",".intercalate (xs.map toString)
+
+def showChange : Int × Change Int → String
+  | (p, .insert items ld) => s!"I@{p}[{joinInts items}]s0l{if ld then 1 else 0}"
+  | (p, .delete a) => s!"D@{p}[{a}]"
+  | (p, .replace a b) => s!"R@{p}[{a}>{b}]"
+
+def showScript (s : Script Int) : String :=
+  if s.isEmpty then "-" else ";".intercalate (s.map showChange)
+
+def step (_ : Unit) (line : String) : Unit × String :=
+  match words line with
+  | ["diff", a, b] =>
+    let old := parseList a
+    let new := parseList b
+    match diff old new with
+    | some s =>
+      -- the script applied to `old` must give `new` (theorem `diff_correct`; re-checked here so a
+      -- model change that breaks it is visible in the correspondence run as well)
+      if applyScript old s == new then ((), showScript s) else ((), "model-apply-mismatch " ++ showScript s)
+    | none => ((), "out-of-fuel")
+  | ["trace", a, b] =>
+    match longestTrace (defaultFuel (parseList a) (parseList b)) (parseList a) (parseList b) with
+    | some tr => ((), if tr.isEmpty then "-" else ",".intercalate (tr.map fun p => s!"{p.1}:{p.2}"))
+    | none => ((), "out-of-fuel")
+  | _ => ((), "bad-op")
+
+end Driver.C16
+
 def main (_args : List String) : IO UInt32 := do
-  IO.eprintln "drv-c16: not implemented yet"
-  return 2
+  Driver.runLoop () Driver.C16.step
+  return 0
